@@ -222,6 +222,9 @@ def evaluate__mod_operator(self: XPathToken, context: ta.ContextType = None) \
     elif op2 is None:
         raise self.error('XPTY0004', '2nd operand is an empty sequence')
     elif op2 == 0 and (isinstance(op2, float) or isinstance(op1, float)):
+        if isinstance(op1, Float) and type(op2) is not float \
+                or isinstance(op2, Float) and type(op1) is not float:
+            return Float(math.nan)  # xs:float operands give an xs:float result
         return math.nan
     elif math.isinf(op2) and not math.isinf(op1) and op1 != 0:
         if isinstance(op1, int) or type(op2) is float and type(op1) is not float:
